@@ -116,7 +116,9 @@ impl Unknown {
         match (&self.0, &other.0) {
             (Inner::Infinite(infinite), _) if infinite.is_any() => Ok(()),
             (Inner::Infinite(infinite), Inner::Exact(rhs)) => {
-                Kind::from(*infinite).is_superset(rhs)
+                // "undefined" only says that unknown elements may be absent, which every
+                // collection allows (same as the exact/exact case below).
+                Kind::from(*infinite).is_superset(&rhs.clone().without_undefined())
             }
             (Inner::Exact(lhs), Inner::Exact(rhs)) => lhs
                 .clone()
